@@ -7,6 +7,7 @@ import (
 	"sync"
 
 	"github.com/Breeze0806/gobinlog"
+	"github.com/Breeze0806/gobinlog/replication"
 
 	"verifharness/core"
 	"verifharness/hist"
@@ -25,6 +26,7 @@ func init() {
 			c20EndToEnd(c)
 			c20Held(c)
 			c20DottedNames(c)
+			c20BigValues(c)
 		}
 	})
 }
@@ -110,7 +112,10 @@ func c20DottedNames(c *core.Ctx) {
 		r := c.Rng(core.StrID("c20dots"), uint64(i))
 		parts := []string{"shop", "eu", "orders", "a", "b.c", "x y", "ü", "t"}
 		a, b2, c3 := parts[r.Intn(len(parts))], parts[r.Intn(len(parts))], parts[r.Intn(len(parts))]
-		names := []gobinlog.MysqlTableName{{DbName: a + "." + b2, TableName: c3}, {DbName: a, TableName: b2 + "." + c3}, {DbName: a + "." + b2 + "." + c3, TableName: ""}, {DbName: "", TableName: a + "." + b2 + "." + c3}}
+		// the separator is what a careless key or cache would join the two
+		// names with: a dot, a quoted dot, a bare quote, ...
+		sep := []string{".", "`.`", ".", "`", "\".\"", "\x00", ":", "/"}[i%8]
+		names := []gobinlog.MysqlTableName{{DbName: a + sep + b2, TableName: c3}, {DbName: a, TableName: b2 + sep + c3}, {DbName: a + sep + b2 + sep + c3, TableName: ""}, {DbName: "", TableName: a + sep + b2 + sep + c3}}
 		mk := func(ns ...gobinlog.MysqlTableName) *gobinlog.Transaction {
 			tx := &gobinlog.Transaction{NowPosition: gobinlog.Position{Filename: "f", Offset: 4}, NextPosition: gobinlog.Position{Filename: "f", Offset: 99}}
 			for _, nm := range ns {
@@ -170,5 +175,53 @@ func c20EndToEnd(c *core.Ctx) {
 		s.Attempt(hs, nil, maxWait)
 		s.Close()
 		c.CellN("e2e:streamed-transactions", int64(n))
+	}
+}
+
+// c20BigValues: valid UTF-8 values far larger than any plausible chunk or
+// buffer size, made of multi-byte characters only (after 0..3 ASCII bytes), so
+// that every cut at a byte offset that is not a multiple of the character
+// width falls inside a character. They must be rendered verbatim.
+func c20BigValues(c *core.Ctx) {
+	chars := []string{"\u00e9", "\u20ac", "\U0001F600", "\u2028"}
+	sizes := []int{4100, 8200, 33000, 65500, 65536 + 7, 131072 + 9, 300000}
+	if !c.Quick() {
+		sizes = append(sizes, 1<<20+5, 3<<20+1)
+	}
+	n := 0
+	for _, ch := range chars {
+		for shift := 0; shift < 4; shift++ {
+			for _, size := range sizes {
+				n++
+				if !c.Mine(n) {
+					continue
+				}
+				b := make([]byte, 0, size+8)
+				for i := 0; i < shift; i++ {
+					b = append(b, byte('a'+i))
+				}
+				for len(b) < size {
+					b = append(b, ch...)
+				}
+				tx := &gobinlog.Transaction{NowPosition: gobinlog.Position{Filename: "f", Offset: 4}, NextPosition: gobinlog.Position{Filename: "f", Offset: int64(size)},
+					Events: []*gobinlog.StreamEvent{{Type: gobinlog.StatementInsert, Table: gobinlog.MysqlTableName{DbName: "d", TableName: "t"},
+						RowValues: []*gobinlog.RowData{{Columns: []*gobinlog.ColumnData{{Filed: "big", Type: 252, Data: b}, {Filed: "small", Type: 253, Data: []byte(ch)}}}}},
+						{Type: gobinlog.StatementCreate, Query: replication.Query{Database: "d", SQL: "create table t /* " + string(b[:len(b)/2]) + " */ (a int)"}}}}
+				key, msg := "", ""
+				if p := core.Guard(func() { key, msg = CheckTxJSON(tx) }); p != "" {
+					key, msg = "txjson-panic", p
+				}
+				c.Case(core.HashU64(core.HashU64(core.Hash64([]byte(ch)), uint64(shift)), uint64(size)), true)
+				if key != "" {
+					if len(msg) > 400 {
+						msg = msg[:400] + "..."
+					}
+					c.Violation("bigvalue:"+key, fmt.Sprintf("value of %d bytes of %d-byte characters after %d ASCII bytes: %s", len(b), len(ch), shift, msg),
+						map[string]interface{}{"mode": "big-values", "char": ch, "shift": shift, "size": size})
+					return
+				}
+				c.Cell("big-multibyte-values")
+			}
+		}
 	}
 }
